@@ -128,6 +128,16 @@ fn main() {
             }
         }
         Some("c12-fresh") => c12::fresh_main(args[1].parse().unwrap()),
+        Some("debug-sierra") => {
+            let text = std::fs::read_to_string(&args[1]).unwrap();
+            let p = cairo_lang_sierra::ProgramParser::new().parse(&text).expect("parse");
+            for linear in [true, false] {
+                match crate::core::guarded(|| c14::pipeline(&p, linear)) {
+                    Ok(st) => println!("linear={linear}: {:?}", st),
+                    Err((loc, msg)) => println!("linear={linear}: PANIC at {loc}: {}", msg.chars().take(300).collect::<String>()),
+                }
+            }
+        }
         Some("debug-c13-seeds") => c13::debug_seeds(),
         Some("debug-c20") => c20::debug_dependents(),
         Some("dump-mini") => { for c in c01::all_cases(Tier::Thorough) { if c.name == args[1] { println!("{}", c.source()); } } }
